@@ -57,12 +57,23 @@ constexpr int CORE = 10;
 constexpr i64 cgcd(i64 a, i64 b) { return b == 0 ? a : cgcd(b, a % b); }
 constexpr bool fits64(i128 x) { return x >= std::numeric_limits<i64>::min() && x <= std::numeric_limits<i64>::max(); }
 
-// which (i, j, rc) are instantiated: all core pairs with all rep combinations; the extra
-// periods with themselves and with nano / seconds / days / ratio<5,7> partners, int64 only
-// (and only when the conversion factor is representable at all)
+// which (i, j, rc) are instantiated (compile time is proportional to their number):
+//  rc 0 (int64, int64): all ordered pairs of the 10 core periods; the extra periods with
+//       themselves and with nano / seconds / days / ratio<5,7> partners;
+//  rc 1..3 (an int32 side): a subset of core pairs covering each duration_cast_impl
+//       specialisation and the library's own int32 typedefs (minutes, hours, days)
+constexpr bool narrow_pair(int i, int j)
+{
+    constexpr int sel[][2] = {{2, 3}, {3, 2}, {0, 3}, {3, 0}, {4, 5}, {5, 4}, {4, 6}, {6, 4}, {5, 6}, {6, 5}, {6, 3},
+        {3, 6}, {9, 7}, {7, 9}, {8, 9}, {9, 8}, {6, 6}, {7, 8}, {4, 2}, {2, 4}};
+    for (auto const& p : sel) {
+        if (p[0] == i && p[1] == j) { return true; }
+    }
+    return false;
+}
 constexpr bool enabled(int i, int j, int rc)
 {
-    if (i < CORE && j < CORE) { return true; }
+    if (i < CORE && j < CORE) { return rc == 0 || narrow_pair(i, j); }
     if (rc != 0) { return false; }
     auto partner = [](int k) { return k == 0 || k == 3 || k == 6 || k == 8; };
     return i == j || partner(i) || partner(j);
@@ -120,14 +131,13 @@ static void ref1(Out& ref, i128 stdv, i128 exact)
 }
 
 enum OpId {
-    OP_CAST, OP_FLOOR, OP_CEIL, OP_ROUND, OP_RND4, OP_TP_CAST, OP_TP_FLOOR, OP_TP_CEIL, OP_TP_ROUND, OP_TP_RND4,
+    OP_CAST, OP_FLOOR, OP_CEIL, OP_ROUND, OP_RND4, OP_TP_CAST, OP_TP_RND4,
     OP_CONV, OP_TP_CONV, OP_PLUS, OP_MINUS, OP_DIV, OP_MOD, OP_CMP, OP_TP_CMP, OP_CTYPE, OP_PERIOD, OP_UNARY,
     OP_TP_UNARY, OP_COMPOUND, OP_TP_COMPOUND, OP_ABS, OP_LIMITS, OP_FCAST_IF, OP_FCONV_IF, OP_NONE
 };
 static OpId op_id(std::string const& s)
 {
-    static char const* const names[] = {"cast", "floor", "ceil", "round", "rnd4", "tp_cast", "tp_floor", "tp_ceil",
-        "tp_round", "tp_rnd4", "conv", "tp_conv", "plus", "minus", "div", "mod", "cmp", "tp_cmp", "ctype", "period",
+    static char const* const names[] = {"cast", "floor", "ceil", "round", "rnd4", "tp_cast", "tp_rnd4", "conv", "tp_conv", "plus", "minus", "div", "mod", "cmp", "tp_cmp", "ctype", "period",
         "unary", "tp_unary", "compound", "tp_compound", "abs", "limits", "fcast_if", "fconv_if"};
     for (int k = 0; k < OP_NONE; ++k) {
         if (s == names[k]) { return static_cast<OpId>(k); }
@@ -161,118 +171,107 @@ struct Ops {
     using ST1 = sc::time_point<sc::system_clock, S1>;
     using ST2 = sc::time_point<sc::system_clock, S2>;
     static constexpr Exact X{SP1::num, SP1::den, SP2::num, SP2::den};
+    // the one-type operations are exercised on the first type of these pairs only
+    static constexpr bool one_type = (I == J) || (I < CORE && J == (I + 1) % CORE);
+
+    // impl (etl) and reference (std) evaluations, shared by the single and the grouped ops
+    static i64 e_cast(R1 c) { return ec::duration_cast<E2>(E1{c}).count(); }
+    static i64 e_floor(R1 c) { return ec::floor<E2>(E1{c}).count(); }
+    static i64 e_ceil(R1 c) { return ec::ceil<E2>(E1{c}).count(); }
+    static i64 e_round(R1 c) { return ec::round<E2>(E1{c}).count(); }
+    static i64 s_cast(R1 c) { return sc::duration_cast<S2>(S1{c}).count(); }
+    static i64 s_floor(R1 c) { return sc::floor<S2>(S1{c}).count(); }
+    static i64 s_ceil(R1 c) { return sc::ceil<S2>(S1{c}).count(); }
+    static i64 s_round(R1 c) { return sc::round<S2>(S1{c}).count(); }
+    static i64 et_cast(R1 c)
+    {
+        ET2 r = ec::time_point_cast<E2>(ET1{E1{c}});
+        return r.time_since_epoch().count();
+    }
+    static i64 et_floor(R1 c)
+    {
+        ET2 r = ec::floor<E2>(ET1{E1{c}});
+        return r.time_since_epoch().count();
+    }
+    static i64 et_ceil(R1 c)
+    {
+        ET2 r = ec::ceil<E2>(ET1{E1{c}});
+        return r.time_since_epoch().count();
+    }
+    static i64 et_round(R1 c)
+    {
+        ET2 r = ec::round<E2>(ET1{E1{c}});
+        return r.time_since_epoch().count();
+    }
+    static i64 st_cast(R1 c) { return sc::time_point_cast<S2>(ST1{S1{c}}).time_since_epoch().count(); }
+    static i64 st_floor(R1 c) { return sc::floor<S2>(ST1{S1{c}}).time_since_epoch().count(); }
+    static i64 st_ceil(R1 c) { return sc::ceil<S2>(ST1{S1{c}}).time_since_epoch().count(); }
+    static i64 st_round(R1 c) { return sc::round<S2>(ST1{S1{c}}).time_since_epoch().count(); }
+
+    static void four(Out& impl, Out& ref, i64 const (&ev)[4], i64 const (&sv)[4], i128 c)
+    {
+        i128 ex[4] = {X.cast(c), X.floor(c), X.ceil(c), X.round(c)};
+        impl.tok("ok");
+        ref.tok("ok");
+        for (int k = 0; k < 4; ++k) { impl.num(ev[k]); }
+        for (int k = 0; k < 4; ++k) { ref.num(sv[k]); }
+        for (int k = 0; k < 4; ++k) {
+            if (sv[k] != ex[k]) { ref.tok("!exact=").big(ex[k]); }
+        }
+    }
 
     static bool run(OpId op, Toks& in, Out& impl, Out& ref)
     {
         switch (op) {
         case OP_CAST: {
             auto c = static_cast<R1>(in.num());
-            guarded(impl, [&](Out& o) { o.tok("ok").num(ec::duration_cast<E2>(E1{c}).count()); });
-            ref1(ref, sc::duration_cast<S2>(S1{c}).count(), X.cast(c));
+            impl.tok("ok").num(e_cast(c));
+            ref1(ref, s_cast(c), X.cast(c));
             return true;
         }
         case OP_FLOOR: {
             auto c = static_cast<R1>(in.num());
-            guarded(impl, [&](Out& o) { o.tok("ok").num(ec::floor<E2>(E1{c}).count()); });
-            ref1(ref, sc::floor<S2>(S1{c}).count(), X.floor(c));
+            impl.tok("ok").num(e_floor(c));
+            ref1(ref, s_floor(c), X.floor(c));
             return true;
         }
         case OP_CEIL: {
             auto c = static_cast<R1>(in.num());
-            guarded(impl, [&](Out& o) { o.tok("ok").num(ec::ceil<E2>(E1{c}).count()); });
-            ref1(ref, sc::ceil<S2>(S1{c}).count(), X.ceil(c));
+            impl.tok("ok").num(e_ceil(c));
+            ref1(ref, s_ceil(c), X.ceil(c));
             return true;
         }
         case OP_ROUND: {
             auto c = static_cast<R1>(in.num());
-            guarded(impl, [&](Out& o) { o.tok("ok").num(ec::round<E2>(E1{c}).count()); });
-            ref1(ref, sc::round<S2>(S1{c}).count(), X.round(c));
+            impl.tok("ok").num(e_round(c));
+            ref1(ref, s_round(c), X.round(c));
             return true;
         }
         case OP_RND4: {
             auto c = static_cast<R1>(in.num());
-            guarded(impl, [&](Out& o) {
-                o.tok("ok")
-                    .num(ec::duration_cast<E2>(E1{c}).count())
-                    .num(ec::floor<E2>(E1{c}).count())
-                    .num(ec::ceil<E2>(E1{c}).count())
-                    .num(ec::round<E2>(E1{c}).count());
-            });
-            i128 sv[4] = {sc::duration_cast<S2>(S1{c}).count(), sc::floor<S2>(S1{c}).count(),
-                sc::ceil<S2>(S1{c}).count(), sc::round<S2>(S1{c}).count()};
-            i128 ex[4] = {X.cast(c), X.floor(c), X.ceil(c), X.round(c)};
-            ref.tok("ok");
-            for (int k = 0; k < 4; ++k) { put(ref, sv[k]); }
-            for (int k = 0; k < 4; ++k) {
-                if (sv[k] != ex[k]) { ref.tok("!exact=").big(ex[k]); }
-            }
+            i64 ev[4] = {e_cast(c), e_floor(c), e_ceil(c), e_round(c)};
+            i64 sv[4] = {s_cast(c), s_floor(c), s_ceil(c), s_round(c)};
+            four(impl, ref, ev, sv, c);
             return true;
         }
         case OP_TP_CAST: {
             auto c = static_cast<R1>(in.num());
-            guarded(impl, [&](Out& o) {
-                ec::time_point<ec::system_clock, E2> r = ec::time_point_cast<E2>(ET1{E1{c}});
-                o.tok("ok").num(r.time_since_epoch().count());
-            });
-            ref1(ref, sc::time_point_cast<S2>(ST1{S1{c}}).time_since_epoch().count(), X.cast(c));
-            return true;
-        }
-        case OP_TP_FLOOR: {
-            auto c = static_cast<R1>(in.num());
-            guarded(impl, [&](Out& o) {
-                ET2 r = ec::floor<E2>(ET1{E1{c}});
-                o.tok("ok").num(r.time_since_epoch().count());
-            });
-            ref1(ref, sc::floor<S2>(ST1{S1{c}}).time_since_epoch().count(), X.floor(c));
-            return true;
-        }
-        case OP_TP_CEIL: {
-            auto c = static_cast<R1>(in.num());
-            guarded(impl, [&](Out& o) {
-                ET2 r = ec::ceil<E2>(ET1{E1{c}});
-                o.tok("ok").num(r.time_since_epoch().count());
-            });
-            ref1(ref, sc::ceil<S2>(ST1{S1{c}}).time_since_epoch().count(), X.ceil(c));
-            return true;
-        }
-        case OP_TP_ROUND: {
-            auto c = static_cast<R1>(in.num());
-            guarded(impl, [&](Out& o) {
-                ET2 r = ec::round<E2>(ET1{E1{c}});
-                o.tok("ok").num(r.time_since_epoch().count());
-            });
-            ref1(ref, sc::round<S2>(ST1{S1{c}}).time_since_epoch().count(), X.round(c));
+            impl.tok("ok").num(et_cast(c));
+            ref1(ref, st_cast(c), X.cast(c));
             return true;
         }
         case OP_TP_RND4: {
             auto c = static_cast<R1>(in.num());
-            guarded(impl, [&](Out& o) {
-                auto tp = ET1{E1{c}};
-                o.tok("ok")
-                    .num(ec::time_point_cast<E2>(tp).time_since_epoch().count())
-                    .num(ec::floor<E2>(tp).time_since_epoch().count())
-                    .num(ec::ceil<E2>(tp).time_since_epoch().count())
-                    .num(ec::round<E2>(tp).time_since_epoch().count());
-            });
-            auto stp = ST1{S1{c}};
-            i128 sv[4] = {sc::time_point_cast<S2>(stp).time_since_epoch().count(),
-                sc::floor<S2>(stp).time_since_epoch().count(), sc::ceil<S2>(stp).time_since_epoch().count(),
-                sc::round<S2>(stp).time_since_epoch().count()};
-            i128 ex[4] = {X.cast(c), X.floor(c), X.ceil(c), X.round(c)};
-            ref.tok("ok");
-            for (int k = 0; k < 4; ++k) { put(ref, sv[k]); }
-            for (int k = 0; k < 4; ++k) {
-                if (sv[k] != ex[k]) { ref.tok("!exact=").big(ex[k]); }
-            }
+            i64 ev[4] = {et_cast(c), et_floor(c), et_ceil(c), et_round(c)};
+            i64 sv[4] = {st_cast(c), st_floor(c), st_ceil(c), st_round(c)};
+            four(impl, ref, ev, sv, c);
             return true;
         }
         case OP_CONV: {
             auto c = static_cast<R1>(in.num());
             if constexpr (std::is_convertible_v<E1, E2>) {
-                guarded(impl, [&](Out& o) {
-                    E2 r = E1{c};
-                    o.tok("ok").num(r.count());
-                });
+                E2 r = E1{c};
+                impl.tok("ok").num(r.count());
             } else {
                 impl.tok("illformed");
             }
@@ -287,10 +286,8 @@ struct Ops {
         case OP_TP_CONV: {
             auto c = static_cast<R1>(in.num());
             if constexpr (std::is_convertible_v<ET1, ET2>) {
-                guarded(impl, [&](Out& o) {
-                    ET2 r = ET1{E1{c}};
-                    o.tok("ok").num(r.time_since_epoch().count());
-                });
+                ET2 r = ET1{E1{c}};
+                impl.tok("ok").num(r.time_since_epoch().count());
             } else {
                 impl.tok("illformed");
             }
@@ -305,43 +302,41 @@ struct Ops {
         case OP_PLUS: {
             auto c1 = static_cast<R1>(in.num());
             auto c2 = static_cast<R2>(in.num());
-            guarded(impl, [&](Out& o) { o.tok("ok").num((E1{c1} + E2{c2}).count()); });
+            impl.tok("ok").num((E1{c1} + E2{c2}).count());
             ref1(ref, (S1{c1} + S2{c2}).count(), c1 * X.f1() + c2 * X.f2());
             return true;
         }
         case OP_MINUS: {
             auto c1 = static_cast<R1>(in.num());
             auto c2 = static_cast<R2>(in.num());
-            guarded(impl, [&](Out& o) { o.tok("ok").num((E1{c1} - E2{c2}).count()); });
+            impl.tok("ok").num((E1{c1} - E2{c2}).count());
             ref1(ref, (S1{c1} - S2{c2}).count(), c1 * X.f1() - c2 * X.f2());
             return true;
         }
         case OP_DIV: {
             auto c1 = static_cast<R1>(in.num());
             auto c2 = static_cast<R2>(in.num());
-            guarded(impl, [&](Out& o) {
-                auto q = E1{c1} / E2{c2};
-                static_assert(std::is_same_v<decltype(q), std::common_type_t<R1, R2>>);
-                o.tok("ok").num(q);
-            });
+            auto q  = E1{c1} / E2{c2};
+            static_assert(std::is_same_v<decltype(q), std::common_type_t<R1, R2>>);
+            impl.tok("ok").num(q);
             ref1(ref, S1{c1} / S2{c2}, (static_cast<i128>(c1) * X.n1 * X.d2) / (static_cast<i128>(c2) * X.n2 * X.d1));
             return true;
         }
         case OP_MOD: {
             auto c1 = static_cast<R1>(in.num());
             auto c2 = static_cast<R2>(in.num());
-            guarded(impl, [&](Out& o) { o.tok("ok").num((E1{c1} % E2{c2}).count()); });
+            impl.tok("ok").num((E1{c1} % E2{c2}).count());
             ref1(ref, (S1{c1} % S2{c2}).count(), (c1 * X.f1()) % (c2 * X.f2()));
             return true;
         }
         case OP_CMP: {
             auto c1 = static_cast<R1>(in.num());
             auto c2 = static_cast<R2>(in.num());
-            guarded(impl, [&](Out& o) {
+            {
                 E1 a{c1};
                 E2 b{c2};
-                o.tok("ok").b(a == b).b(a != b).b(a < b).b(a <= b).b(a > b).b(a >= b);
-            });
+                impl.tok("ok").b(a == b).b(a != b).b(a < b).b(a <= b).b(a > b).b(a >= b);
+            }
             S1 a{c1};
             S2 b{c2};
             ref.tok("ok").b(a == b).b(a != b).b(a < b).b(a <= b).b(a > b).b(a >= b);
@@ -352,11 +347,11 @@ struct Ops {
         case OP_TP_CMP: {
             auto c1 = static_cast<R1>(in.num());
             auto c2 = static_cast<R2>(in.num());
-            guarded(impl, [&](Out& o) {
+            {
                 ET1 a{E1{c1}};
                 ET2 b{E2{c2}};
-                o.tok("ok").b(a == b).b(a != b).b(a < b).b(a <= b).b(a > b).b(a >= b);
-            });
+                impl.tok("ok").b(a == b).b(a != b).b(a < b).b(a <= b).b(a > b).b(a >= b);
+            }
             ST1 a{S1{c1}};
             ST2 b{S2{c2}};
             ref.tok("ok").b(a == b).b(a != b).b(a < b).b(a <= b).b(a > b).b(a >= b);
@@ -371,87 +366,13 @@ struct Ops {
                 .num(EC::period::den);
             ref.tok("ok").num(static_cast<i64>(sizeof(typename SC::rep) * 8)).num(SC::period::num).num(SC::period::den);
             static_assert(std::is_signed_v<typename EC::rep>);
-            // the period of the duration type itself and the time_point common type agree with it
+            // the time_point common type wraps the duration common type
             static_assert(std::is_same_v<typename etl::common_type_t<ET1, ET2>::duration, EC>);
             return true;
         }
         case OP_PERIOD: {
             impl.tok("ok").num(E1::period::num).num(E1::period::den);
             ref.tok("ok").num(S1::period::num).num(S1::period::den);
-            return true;
-        }
-        case OP_UNARY: {
-            auto c = static_cast<R1>(in.num());
-            guarded(impl, [&](Out& o) {
-                E1 const d{c};
-                o.tok("ok").num((-d).count()).num((+d).count());
-                { E1 x{c}; auto r = ++x; o.num(r.count()).num(x.count()); }
-                { E1 x{c}; auto r = x++; o.num(r.count()).num(x.count()); }
-                { E1 x{c}; auto r = --x; o.num(r.count()).num(x.count()); }
-                { E1 x{c}; auto r = x--; o.num(r.count()).num(x.count()); }
-            });
-            S1 const d{c};
-            ref.tok("ok").num((-d).count()).num((+d).count());
-            { S1 x{c}; auto r = ++x; ref.num(r.count()).num(x.count()); }
-            { S1 x{c}; auto r = x++; ref.num(r.count()).num(x.count()); }
-            { S1 x{c}; auto r = --x; ref.num(r.count()).num(x.count()); }
-            { S1 x{c}; auto r = x--; ref.num(r.count()).num(x.count()); }
-            return true;
-        }
-        case OP_TP_UNARY: {
-            auto c = static_cast<R1>(in.num());
-            guarded(impl, [&](Out& o) {
-                o.tok("ok");
-                { ET1 x{E1{c}}; auto r = ++x; o.num(r.time_since_epoch().count()).num(x.time_since_epoch().count()); }
-                { ET1 x{E1{c}}; auto r = x++; o.num(r.time_since_epoch().count()).num(x.time_since_epoch().count()); }
-                { ET1 x{E1{c}}; auto r = --x; o.num(r.time_since_epoch().count()).num(x.time_since_epoch().count()); }
-                { ET1 x{E1{c}}; auto r = x--; o.num(r.time_since_epoch().count()).num(x.time_since_epoch().count()); }
-            });
-            ref.tok("ok");
-            { ST1 x{S1{c}}; auto r = ++x; ref.num(r.time_since_epoch().count()).num(x.time_since_epoch().count()); }
-            { ST1 x{S1{c}}; auto r = x++; ref.num(r.time_since_epoch().count()).num(x.time_since_epoch().count()); }
-            { ST1 x{S1{c}}; auto r = --x; ref.num(r.time_since_epoch().count()).num(x.time_since_epoch().count()); }
-            { ST1 x{S1{c}}; auto r = x--; ref.num(r.time_since_epoch().count()).num(x.time_since_epoch().count()); }
-            return true;
-        }
-        case OP_COMPOUND: {
-            auto c = static_cast<R1>(in.num());
-            auto x = static_cast<R1>(in.num());
-            guarded(impl, [&](Out& o) {
-                o.tok("ok");
-                { E1 d{c}; d += E1{x}; o.num(d.count()); }
-                { E1 d{c}; d -= E1{x}; o.num(d.count()); }
-                { E1 d{c}; d *= x; o.num(d.count()); }
-                { E1 d{c}; d /= x; o.num(d.count()); }
-                { E1 d{c}; d %= x; o.num(d.count()); }
-                { E1 d{c}; d %= E1{x}; o.num(d.count()); }
-            });
-            ref.tok("ok");
-            { S1 d{c}; d += S1{x}; ref.num(d.count()); }
-            { S1 d{c}; d -= S1{x}; ref.num(d.count()); }
-            { S1 d{c}; d *= x; ref.num(d.count()); }
-            { S1 d{c}; d /= x; ref.num(d.count()); }
-            { S1 d{c}; d %= x; ref.num(d.count()); }
-            { S1 d{c}; d %= S1{x}; ref.num(d.count()); }
-            return true;
-        }
-        case OP_TP_COMPOUND: {
-            auto c = static_cast<R1>(in.num());
-            auto x = static_cast<R1>(in.num());
-            guarded(impl, [&](Out& o) {
-                o.tok("ok");
-                { ET1 t{E1{c}}; t += E1{x}; o.num(t.time_since_epoch().count()); }
-                { ET1 t{E1{c}}; t -= E1{x}; o.num(t.time_since_epoch().count()); }
-            });
-            ref.tok("ok");
-            { ST1 t{S1{c}}; t += S1{x}; ref.num(t.time_since_epoch().count()); }
-            { ST1 t{S1{c}}; t -= S1{x}; ref.num(t.time_since_epoch().count()); }
-            return true;
-        }
-        case OP_ABS: {
-            auto c = static_cast<R1>(in.num());
-            guarded(impl, [&](Out& o) { o.tok("ok").num(ec::abs(E1{c}).count()); });
-            ref1(ref, sc::abs(S1{c}).count(), c < 0 ? -static_cast<i128>(c) : static_cast<i128>(c));
             return true;
         }
         case OP_LIMITS: {
@@ -461,26 +382,104 @@ struct Ops {
             static_assert(ET1::max().time_since_epoch().count() == E1::max().count());
             return true;
         }
-        case OP_FCAST_IF: {
-            auto c = static_cast<R1>(in.num());
+        default: break;
+        }
+        if constexpr (one_type) {
+            switch (op) {
+            case OP_UNARY: {
+                auto c = static_cast<R1>(in.num());
+                {
+                    E1 const d{c};
+                    impl.tok("ok").num((-d).count()).num((+d).count());
+                    { E1 x{c}; auto r = ++x; impl.num(r.count()).num(x.count()); }
+                    { E1 x{c}; auto r = x++; impl.num(r.count()).num(x.count()); }
+                    { E1 x{c}; auto r = --x; impl.num(r.count()).num(x.count()); }
+                    { E1 x{c}; auto r = x--; impl.num(r.count()).num(x.count()); }
+                }
+                S1 const d{c};
+                ref.tok("ok").num((-d).count()).num((+d).count());
+                { S1 x{c}; auto r = ++x; ref.num(r.count()).num(x.count()); }
+                { S1 x{c}; auto r = x++; ref.num(r.count()).num(x.count()); }
+                { S1 x{c}; auto r = --x; ref.num(r.count()).num(x.count()); }
+                { S1 x{c}; auto r = x--; ref.num(r.count()).num(x.count()); }
+                return true;
+            }
+            case OP_TP_UNARY: {
+                auto c = static_cast<R1>(in.num());
+                auto ec_ = [](ET1 const& t) { return t.time_since_epoch().count(); };
+                auto sc_ = [](ST1 const& t) { return t.time_since_epoch().count(); };
+                impl.tok("ok");
+                { ET1 x{E1{c}}; auto r = ++x; impl.num(ec_(r)).num(ec_(x)); }
+                { ET1 x{E1{c}}; auto r = x++; impl.num(ec_(r)).num(ec_(x)); }
+                { ET1 x{E1{c}}; auto r = --x; impl.num(ec_(r)).num(ec_(x)); }
+                { ET1 x{E1{c}}; auto r = x--; impl.num(ec_(r)).num(ec_(x)); }
+                ref.tok("ok");
+                { ST1 x{S1{c}}; auto r = ++x; ref.num(sc_(r)).num(sc_(x)); }
+                { ST1 x{S1{c}}; auto r = x++; ref.num(sc_(r)).num(sc_(x)); }
+                { ST1 x{S1{c}}; auto r = --x; ref.num(sc_(r)).num(sc_(x)); }
+                { ST1 x{S1{c}}; auto r = x--; ref.num(sc_(r)).num(sc_(x)); }
+                return true;
+            }
+            case OP_COMPOUND: {
+                auto c = static_cast<R1>(in.num());
+                auto x = static_cast<R1>(in.num());
+                impl.tok("ok");
+                { E1 d{c}; d += E1{x}; impl.num(d.count()); }
+                { E1 d{c}; d -= E1{x}; impl.num(d.count()); }
+                { E1 d{c}; d *= x; impl.num(d.count()); }
+                { E1 d{c}; d /= x; impl.num(d.count()); }
+                { E1 d{c}; d %= x; impl.num(d.count()); }
+                { E1 d{c}; d %= E1{x}; impl.num(d.count()); }
+                ref.tok("ok");
+                { S1 d{c}; d += S1{x}; ref.num(d.count()); }
+                { S1 d{c}; d -= S1{x}; ref.num(d.count()); }
+                { S1 d{c}; d *= x; ref.num(d.count()); }
+                { S1 d{c}; d /= x; ref.num(d.count()); }
+                { S1 d{c}; d %= x; ref.num(d.count()); }
+                { S1 d{c}; d %= S1{x}; ref.num(d.count()); }
+                return true;
+            }
+            case OP_TP_COMPOUND: {
+                auto c = static_cast<R1>(in.num());
+                auto x = static_cast<R1>(in.num());
+                impl.tok("ok");
+                { ET1 t{E1{c}}; t += E1{x}; impl.num(t.time_since_epoch().count()); }
+                { ET1 t{E1{c}}; t -= E1{x}; impl.num(t.time_since_epoch().count()); }
+                ref.tok("ok");
+                { ST1 t{S1{c}}; t += S1{x}; ref.num(t.time_since_epoch().count()); }
+                { ST1 t{S1{c}}; t -= S1{x}; ref.num(t.time_since_epoch().count()); }
+                return true;
+            }
+            case OP_ABS: {
+                auto c = static_cast<R1>(in.num());
+                impl.tok("ok").num(ec::abs(E1{c}).count());
+                ref1(ref, sc::abs(S1{c}).count(), c < 0 ? -static_cast<i128>(c) : static_cast<i128>(c));
+                return true;
+            }
+            default: break;
+            }
+        }
+        if constexpr (RC == 0) {
+            // floating-point target representation: tested against std only (and an OCaml double mirror)
             using EF = ec::duration<double, EP2>;
             using SF = sc::duration<double, SP2>;
-            impl.tok("ok").tok(dbits(ec::duration_cast<EF>(E1{c}).count()));
-            ref.tok("ok").tok(dbits(sc::duration_cast<SF>(S1{c}).count()));
-            return true;
+            if (op == OP_FCAST_IF) {
+                auto c = static_cast<R1>(in.num());
+                impl.tok("ok").tok(dbits(ec::duration_cast<EF>(E1{c}).count()));
+                ref.tok("ok").tok(dbits(sc::duration_cast<SF>(S1{c}).count()));
+                return true;
+            }
+            if (op == OP_FCONV_IF) {
+                auto c = static_cast<R1>(in.num());
+                EF e = E1{c};
+                SF s = S1{c};
+                impl.tok("ok").tok(dbits(e.count()));
+                ref.tok("ok").tok(dbits(s.count()));
+                return true;
+            }
         }
-        case OP_FCONV_IF: {
-            auto c = static_cast<R1>(in.num());
-            using EF = ec::duration<double, EP2>;
-            using SF = sc::duration<double, SP2>;
-            EF e = E1{c};
-            SF s = S1{c};
-            impl.tok("ok").tok(dbits(e.count()));
-            ref.tok("ok").tok(dbits(s.count()));
-            return true;
-        }
-        default: return false;
-        }
+        impl.tok("not-instantiated");
+        return true;
     }
 };
 
